@@ -1,9 +1,9 @@
 CONSTANTS
-  N = 4
+  N = 3
   MaxTok = 2
-  MaxM = 5
-  MaxSize = 5
-  MaxEvents = 3
+  MaxM = 4
+  MaxSize = 4
+  MaxEvents = 2
 INIT Init
 NEXT Next
 INVARIANTS TypeOK PSizeFormula PMonotone PConsistency PLookbackSuperset PLookbackMembers
